@@ -118,6 +118,8 @@ PROPS = {
              "bound": "11 data types x {none, IDENTICAL, TAB_INTP, TAB_NOINTP, TAB_VERB} x arbitrary coefficient values", "timeout": 120},
             {"engine": "E2", "module": "checker", "harness": "h_c12_unevaluated_never_error", "functions": ["checker::calc_compu_method_limits", "checker::check_limits_valid"],
              "bound": "11 data types x {FORM, general RAT_FUNC with arbitrary finite coefficients} x arbitrary finite declared limits", "timeout": 240},
+            {"engine": "E2", "module": "lib", "harness": "h_check_axis_datatype_dispatch", "functions": ["checker::check_characteristic_common", "checker::calc_compu_method_limits", "checker::check_limits_valid"],
+             "bound": "MAP whose first axis is STD/FIX/COM_AXIS and whose second axis is a STD_AXIS with limits inside / outside the UWORD range of AXIS_PTS_Y (6 cases)", "timeout": 200, "extra_modules": ["tokenizer"]},
             {"engine": "E2", "module": "checker", "harness": "h_c12_limits_valid", "functions": ["checker::check_limits_valid"],
              "bound": "calculated range from 17 ranges (11 raw ranges + 6 ranges with ends of very different magnitude); all finite declared limits: inside, within half the tolerance, clearly outside (10x) on each side", "timeout": 240, "must_cover": ["upper limit slightly above the range"]},
         ],
@@ -218,6 +220,20 @@ PROPS = {
              "bound": "4 gaps inside a MEASUREMENT, each from {space, LF, blank line, CRLF} (256 layouts)", "timeout": 400, "extra_modules": ["tokenizer"], "validate": 40},
             {"engine": "E2", "module": "lib", "harness": "h_layout_blocks", "functions": ["load_from_string", "tokenizer::tokenize_core", "parser::ParserState::get_line_offset", "parser::ParserState::get_next_tag_or_comment", "writer::Writer::add_group", "A2lFile::write_to_string"],
              "bound": "3 gaps between block-level elements, each from {LF, blank line, block comment, line comment, multi-line block comment, inline block comment, CRLF} (343 layouts)", "timeout": 400, "extra_modules": ["tokenizer"], "validate": 40},
+        ],
+    },
+    "C11": {
+        "files": ["a2lfile/src/checker.rs", "a2lfile/src/module.rs", "a2lfile/src/itemlist.rs", "a2lfile/src/lib.rs"],
+        "trusted": T_STD,
+        "assumptions": ["modules are built by loading a template text through the real parser inside the symbolic executor; 41 reference sites of the grammar are populated (list in harness/lib.rs consistent_module)",
+                        "soundness/completeness is decided per single corrupted site; THIS. references and group structure rules are not part of this check"],
+        "jobs": [
+            {"engine": "E2", "module": "lib", "harness": "h_check_refs", "functions": ["A2lFile::check", "checker::check", "checker::check_*", "module::Module::objects/compu_tabs/typedefs", "load_from_string"],
+             "bound": "fully consistent template module, and each of its 41 reference sites corrupted alone (42 cases)", "timeout": 600, "extra_modules": ["tokenizer"], "validate": 42},
+            {"engine": "E2", "module": "lib", "harness": "h_check_conventions", "functions": ["checker::check"],
+             "bound": "one module using NO_COMPU_METHOD / NO_INPUT_QUANTITY / NO_INVERSE_TRANSFORMER at every site that allows them", "timeout": 200, "extra_modules": ["tokenizer"]},
+            {"engine": "E2", "module": "lib", "harness": "h_check_axis_descr_count", "functions": ["checker::check_characteristic_common", "checker::check_axis_descr"],
+             "bound": "CHARACTERISTIC with 0..=7 AXIS_DESCR of attribute STD_AXIS / FIX_AXIS / COM_AXIS (24 cases): check() is total", "timeout": 300, "extra_modules": ["tokenizer"]},
         ],
     },
 }
